@@ -175,6 +175,29 @@ impl MatrixSlab {
             // safely: this allocation is valid for MATRIX_ALLOC_LAYOUT
             let (haystack, bonus, rows, current_row, matrix_cells) =
                 matrix_layout.fieds_from_ptr(self.0);
+            #[cfg(feature = "verif-hooks")]
+            crate::verif::report_slab(|| {
+                let base = self.0.as_ptr() as usize;
+                crate::verif::SlabReport {
+                    slab_size: size_of::<MatcherData>(),
+                    haystack_len: haystack_.len(),
+                    needle_len,
+                    char_size: size_of::<C>(),
+                    views: [
+                        (haystack as *mut u8 as usize - base, haystack.len() * size_of::<C>()),
+                        (bonus as *mut u8 as usize - base, bonus.len()),
+                        (rows as *mut u8 as usize - base, rows.len() * size_of::<u16>()),
+                        (
+                            current_row as *mut u8 as usize - base,
+                            current_row.len() * size_of::<ScoreCell>(),
+                        ),
+                        (
+                            matrix_cells as *mut u8 as usize - base,
+                            matrix_cells.len() * size_of::<MatrixCell>(),
+                        ),
+                    ],
+                }
+            });
             // copy haystack before creating references to ensure we don't create
             // references to invalid chars (which may or may not be UB)
             haystack_
